@@ -4,11 +4,14 @@ import (
 	"fmt"
 	"os"
 
+	"github.com/sarchlab/akita/v5/messaging"
+
 	"github.com/sarchlab/akita/v5/mem/memcontrolprotocol"
 
 	"github.com/sarchlab/akita/v5/tracing"
 
 	"verif/props/emem"
+	"verif/props/enoc"
 	"verif/props/evm"
 	"verif/sim/kit"
 )
@@ -20,13 +23,17 @@ type T32 struct {
 	VM18    *evm.C18VM    `json:"vm18,omitempty"`
 	Mem     *emem.Config  `json:"mem,omitempty"`
 	VM      *evm.Cfg      `json:"vm,omitempty"`
+	Net     *enoc.Net     `json:"net,omitempty"`
 	Buffers bool          `json:"buffers"`
 }
 
 func genT32(r *kit.Rand, tier kit.Tier) T32 {
 	c := T32{Buffers: r.Chance(2, 3)}
 
-	switch r.Weighted(3, 3, 2, 2) {
+	switch r.Weighted(3, 3, 2, 2, 3) {
+	case 4:
+		n := enoc.GenNet(r, tier)
+		c.Net = &n
 	case 0:
 		m := emem.GenC18Case(r, tier)
 		c.Mem18 = &m
@@ -79,6 +86,29 @@ func tracedRun(c T32, env *kit.Env) (*Rec, kit.Outcome, uint64) {
 		out = emem.ExecC18Case(*c.Mem18, env)
 	case c.VM18 != nil:
 		out = evm.ExecC18VM(*c.VM18, env)
+	case c.Net != nil:
+		w := enoc.Build(c.Net)
+		ports := map[string]messaging.Port{}
+
+		for _, p := range w.Reg.Ports {
+			if mp, ok := p.(messaging.Port); ok {
+				ports[mp.Name()] = mp
+			}
+		}
+
+		AttachAll(rec, w.Domains(), ports, c.Buffers)
+		w.Run()
+
+		out.Events, out.Violation = w.Events, w.V
+		now = uint64(w.Eng.CurrentTime())
+
+		if w.CapHit {
+			out.Inconclusive = "event-cap"
+		}
+
+		if w.V == nil && !w.CapHit && w.Delivered() < len(c.Net.Msgs) {
+			out.Inconclusive = "undelivered-messages" // a cyclic topology may block: no quiescent trace to judge
+		}
 	case c.Mem != nil:
 		w := emem.NewWorld()
 		a := emem.Run(c.Mem, w)
@@ -177,6 +207,13 @@ func shrinkT32(c T32) []T32 {
 			q.Mem = &s
 			out = append(out, q)
 		}
+	case c.Net != nil:
+		for _, s := range enoc.ShrinkNet(*c.Net) {
+			s := s
+			q := c
+			q.Net = &s
+			out = append(out, q)
+		}
 	case c.VM != nil:
 		for _, s := range evm.ShrinkCfg(*c.VM) {
 			s := s
@@ -198,7 +235,7 @@ func shrinkT32(c T32) []T32 {
 func init() {
 	kit.Register(kit.Spec[T32]{
 		ID: "C32", Level: "exploration",
-		Rule: "a checking recorder is attached with tracing.CollectTrace to every library component (ROB, caches, memory controllers, connections; TLBs, MMU cache, GMMU, MMU, address translator) and, in 2/3 of the runs, incoming/outgoing buffer tracing to all of their ports; runs are C18's single-agent control histories (pause/drain/reset/flush/invalidate in the middle of traffic, memory and VM agents) and plain multi-level memory hierarchies and VM stacks; " +
+		Rule: "a checking recorder is attached with tracing.CollectTrace to every library component (ROB, caches, memory controllers, connections; TLBs, MMU cache, GMMU, MMU, address translator) and, in 2/3 of the runs, incoming/outgoing buffer tracing to all of their ports; runs are C18's single-agent control histories (pause/drain/reset/flush/invalidate in the middle of traffic, memory and VM agents) plain multi-level memory hierarchies and VM stacks, and switched networks (switches, endpoints, connections) under traffic; " +
 			"while the run proceeds: no task started twice, ended twice or before its start, tags and milestones refer to started tasks within their lifetime, one kind per location; at quiescence every started task has ended; distinct = stream shape; non-trivial = >= 4 tasks",
 		Assumptions: []string{"ends of tasks that were never started are allowed (EndTaskOnReset documents that reset paths end every task a transaction could hold)", "runs in which the assembly itself violates another property's oracle or hits the event cap are inconclusive: they have no trustworthy quiescent state"},
 		Real:        []string{"tracing (api, registry, buffer tracers)", "mem/*, mem/vm/* tracing call sites"},
